@@ -79,7 +79,7 @@ func ruleC18(r *Report) {
 		opaque[f] = true
 	}
 	policy := func(f *ssa.Function) bool {
-		return p.InLibrary(f) && f.Pkg != nil && f.Pkg.Pkg.Path() == modPath && !opaque[f] && errIndex(f) >= 0
+		return p.InLibrary(f) && f.Pkg != nil && f.Pkg.Pkg.Path() == modPath && !opaque[f] && (errIndex(f) >= 0 || isPredicate(f))
 	}
 	entries := []*ssa.Function{
 		p.MustFunc("saml", "ServiceProvider", "ValidateLogoutResponseForm"),
